@@ -34,10 +34,14 @@ def mkDir (kind : String) : DirRepo :=
 def mkMem (kind : String) : MemRepo :=
   if kind == "healthy" || kind == "corrupt" then { index := healthyIndex, blobs := healthyBlobs } else {}
 
+def imgSuffix (bs : List Blob) : String := if bs.any (·.dig = 3) then "+i" else ""
 def stateDir (r : DirRepo) : String :=
   if !r.repoDir then "gone" else if r.indexFile && r.corrupt then "corrupt"
-  else if r.blobs.any (·.dig = 4) then "dirty" else "clean"
-def stateMem (r : MemRepo) : String := if r.blobs.any (·.dig = 4) then "dirty" else "clean"
+  else (if r.blobs.any (·.dig = 4) then "dirty" else "clean") ++ imgSuffix r.blobs
+def stateMem (r : MemRepo) : String := (if r.blobs.any (·.dig = 4) then "dirty" else "clean") ++ imgSuffix r.blobs
+
+/-- the descriptor `T` / `U` pass to `IndexRemove` / `IndexInsert`: the image of a healthy repository with the tag `latest` -/
+def latestDesc : Desc := { mt := 1, dig := 3, size := 1, ann := { isNil := false, tag := 1 } }
 
 def pstep (s : PSt) (toks : List String) : PSt × String :=
   match toks with
@@ -65,11 +69,27 @@ def pstep (s : PSt) (toks : List String) : PSt × String :=
     let kind := ((s.kinds.find? (·.1 = n)).map (·.2)).getD ""
     if kind == "healthy" || (kind == "corrupt" && !s.dirMode) then
       let addM (e : Entry MemRepo) : Entry MemRepo := { e with repo := { e.repo with blobs := e.repo.blobs.filter (·.dig ≠ 4) ++ [garbage] } }
+      -- BlobCreate initialises the repository again if an earlier pass removed it as empty
       let addD (e : Entry DirRepo) : Entry DirRepo :=
-        { e with repo := { e.repo with blobs := e.repo.blobs.filter (·.dig ≠ 4) ++ [garbage], uploadsDir := true } }
+        let r := e.repo.init
+        { e with repo := { r with blobs := r.blobs.filter (·.dig ≠ 4) ++ [garbage], uploadsDir := true, blobsDir := true,
+                                  algos := insertAlgo 256 r.algos } }
       ({ s with mem := s.mem.map (fun (m, e) => if m = n then (m, addM e) else (m, e)),
                 dir := s.dir.map (fun (m, e) => if m = n then (m, addD e) else (m, e)) }, "ok")
     else (s, "ok")
+  | [op, name] =>
+    -- `T`: memRepo/dirRepo.IndexRemove (RmDesc with digest and tag: the entry stays, untagged); `U`: IndexInsert (AddDesc);
+    -- either way the store notes the modification, so the repository is due for the next pass
+    if op != "T" && op != "U" then (s, "bad-op") else
+    let n := repoNo name
+    let kind := ((s.kinds.find? (·.1 = n)).map (·.2)).getD ""
+    if kind != "healthy" then (s, "ok") else
+    let f (ix : Index) : Index := if op == "T" then rmDesc ix latestDesc else addDesc ix latestDesc
+    let updM (e : Entry MemRepo) : Entry MemRepo := { due := true, repo := { e.repo with index := f e.repo.index } }
+    let updD (e : Entry DirRepo) : Entry DirRepo :=
+      if !e.repo.live then e else { due := true, repo := { e.repo with index := f e.repo.index } }
+    ({ s with mem := s.mem.map (fun (m, e) => if m = n then (m, updM e) else (m, e)),
+              dir := s.dir.map (fun (m, e) => if m = n then (m, updD e) else (m, e)) }, "ok")
   | ["PASS"] =>
     if s.dirMode then
       let (st, err) := gcPass (dirGC s.p s.emptyRepo) s.names s.dir
